@@ -132,3 +132,75 @@ Theorem C10_code_number_to_string :
   forall n : Q, serializer__number_to_string n = fmt4 n.
 Proof. exact @number_to_string_eq. Qed.
 Print Assumptions C10_code_number_to_string.
+
+(* ==== T1 tie (compound contracts: the dictionary form) ==== *)
+Require Import Compound Syntax JsonCompound JsonCompoundGen JsonGenCompound JsonCompoundFacts.
+(* T1 tie: PolyhedralIoContractCompound.to_dict and PolyhedralIoContractCompound.from_strings (polyhedral_iocontract.py) as translated ON THIS RUN (gen/JsonCompoundGen.v, translator/py2coq_compjson.py; the string printer, the string parser and the two constructors are the named section parameters) ARE the functions of model/JsonCompound.v about which the round-trip theorems below speak; the file writer of gen/JsonGen.v, whose compound to_dict is a parameter, instantiated with the translated to_dict writes the entry of model/JsonCompound.v. proofs/JsonGenCompound.v *)
+Theorem C10_code_compound_to_dict :
+  forall (tsl : list pterm -> list string) (k : compound),
+       PolyhedralIoContractCompound_to_dict tsl k = compound_to_dict tsl k.
+Proof. exact @compound_to_dict_eq. Qed.
+Print Assumptions C10_code_compound_to_dict.
+Theorem C10_code_compound_from_strings :
+  forall (pstr : json -> string) (parse_j : json -> M (list pterm)) (nested_new : nested -> bool -> M nested)
+         (compound_new : nested -> nested -> list var -> list var -> M compound)
+         (assumptions guarantees input_vars output_vars : json),
+       PolyhedralIoContractCompound_from_strings pstr parse_j nested_new compound_new
+         assumptions guarantees input_vars output_vars =
+       compound_from_strings pstr parse_j nested_new compound_new assumptions guarantees input_vars output_vars.
+Proof. exact @compound_from_strings_eq. Qed.
+Print Assumptions C10_code_compound_from_strings.
+Theorem C10_code_write_compound :
+  forall (tsl : list pterm -> list string) (k : compound) (name : string),
+       fileio_write_contracts_to_file tsl (PolyhedralIoContractCompound_to_dict tsl) [ACompound k] [name] false =
+       ret (JList [write_entry_compound tsl name k]).
+Proof. exact @write_compound_entry_eq. Qed.
+Print Assumptions C10_code_write_compound.
+
+(* what to_dict writes: exactly one string list per alternative, in order, for the assumptions and for the
+   guarantees independently (equality of the lists of string lists: length and element-wise) *)
+Theorem C10_compound_to_dict_sides : forall (tsl : list pterm -> list string) (k : compound),
+  side_strings (jget_or_null "assumptions" (compound_to_dict tsl k)) = map tsl (k_a k) /\
+  side_strings (jget_or_null "guarantees" (compound_to_dict tsl k)) = map tsl (k_g k).
+Proof. exact to_dict_sides. Qed.
+Print Assumptions C10_compound_to_dict_sides.
+Theorem C10_compound_to_dict_guarantees_independent : forall (tsl : list pterm -> list string) (k k' : compound),
+  k_g k = k_g k' ->
+  jget_or_null "guarantees" (compound_to_dict tsl k) = jget_or_null "guarantees" (compound_to_dict tsl k').
+Proof. exact to_dict_guarantees_independent. Qed.
+Print Assumptions C10_compound_to_dict_guarantees_independent.
+
+(* MAIN, for EVERY printer / parser pair with the per-list round trip of props/C10b.v ("parsing the printed strings
+   of a term list gives back a list with the same meaning"): from_strings of the unpacked to_dict — both as
+   translated from the source on this run — hands the two constructors the same interface and, for each side,
+   alternatives in one-to-one, order-preserving correspondence (Forall2) with the original ones, each with the same
+   meaning.  No alternative of either side is lost, added, merged or reordered. *)
+Theorem C10_compound_roundtrip :
+  forall (tsl : list pterm -> list string) (parse_s : string -> M (list pterm)) (parse_j : json -> M (list pterm))
+         (ok : list pterm -> Prop) (same : list pterm -> list pterm -> Prop),
+  (forall s, parse_j (JStr s) = parse_s s) ->
+  (forall ts, ok ts -> exists ts', concat_mapM parse_s (tsl ts) = inl ts' /\ same ts ts') ->
+  forall (pstr : json -> string) (nested_new : nested -> bool -> M nested)
+         (compound_new : nested -> nested -> list var -> list var -> M compound) (k : compound),
+  Forall ok (k_a k) -> Forall ok (k_g k) ->
+  let d := PolyhedralIoContractCompound_to_dict tsl k in
+  exists a' g',
+    Forall2 same (k_a k) a' /\ Forall2 same (k_g k) g' /\
+    (_ <- call_kwargs ["assumptions"; "guarantees"; "input_vars"; "output_vars"]%string [] d ;;
+     PolyhedralIoContractCompound_from_strings pstr parse_j nested_new compound_new
+       (kwarg "assumptions" d) (kwarg "guarantees" d) (kwarg "input_vars" d) (kwarg "output_vars" d))
+    = (na <- nested_new a' true ;; ng <- nested_new g' false ;;
+       compound_new na ng (k_inputvars k) (k_outputvars k)).
+Proof. exact compound_roundtrip_code. Qed.
+Print Assumptions C10_compound_roundtrip.
+
+(* the file: the entry written for a compound contract, read by the reader of model/Json.v (= the translated reader,
+   C10_code_read_file), is the LCompound carrying those four fields — what from_strings is then applied to *)
+Theorem C10_compound_file_read_back :
+  forall (s2f : string -> option Q) (pstr : json -> string) (tsl : list pterm -> list string) (name : string)
+         (k : compound),
+  read_file s2f pstr (JList [write_entry_compound tsl name k])
+  = inl [(name, LCompound (side_to_json tsl (k_a k)) (side_to_json tsl (k_g k))
+                          (JList (map JStr (k_inputvars k))) (JList (map JStr (k_outputvars k))))].
+Proof. exact compound_file_read_back. Qed.
+Print Assumptions C10_compound_file_read_back.
